@@ -140,10 +140,130 @@ def pure(ctx, R, py, modules):
     return n
 
 
+def names(ctx, R, py, modules):
+    """every name and every self-attribute used in the module's functions resolves (parameter, local, enclosing function,
+    module binding incl. star imports, builtin; attribute / method / property of the class or its bases): otherwise reaching
+    the line raises NameError / AttributeError instead of doing what the property describes"""
+    from . import res
+    n = 0
+    for mn in modules:
+        m = py.mods.get(mn)
+        ctx.need(m is not None, R, "module %s not found" % mn)
+        for f in m.funcs.values():
+            bad = res.unresolved_names(py, f)
+            battr = res.unresolved_self_attrs(py, f)
+            n += 1
+            if not bad and not battr:
+                ctx.ok(R, f, f._qual, "names of %s resolve" % f.name, "", nontrivial=False)
+            for x in bad:
+                ctx.violation(R, x, f._qual, "name `%s`" % x.id, "`%s` is not a parameter, local, module-level binding or builtin: "
+                              "reaching this line raises NameError" % x.id)
+            for x in battr:
+                ctx.violation(R, x, f._qual, "self.%s" % x.attr, "no such attribute, method or property in the class: reaching "
+                              "this line raises AttributeError")
+    return n
+
+
+QTY_ATTRS = {"convert", "value", "units", "get_at", "set_at", "copy"}
+
+
+def acc(ctx, R, py, modules):
+    """ACC -- an accumulator that starts as a bare number (`d = 0`) and is used as a quantity afterwards (`d.convert(..)`,
+    `d.value`) must be given a quantity on *every* path: if all its updates sit inside loops or branches, the empty loop (a
+    network without reactions, a cell without neighbours) leaves the bare number and the call raises AttributeError."""
+    n = 0
+    for mn in modules:
+        m = py.mods.get(mn)
+        ctx.need(m is not None, R, "module %s not found" % mn)
+        for f in m.funcs.values():
+            inits = {}
+            for st in f.body:
+                if isinstance(st, ast.Assign) and len(st.targets) == 1 and isinstance(st.targets[0], ast.Name) and \
+                        isinstance(st.value, ast.Constant) and isinstance(st.value.value, (int, float)) and \
+                        not isinstance(st.value.value, bool):
+                    inits[st.targets[0].id] = st
+            if not inits:
+                continue
+            for name, init in inits.items():
+                uses = [x for x in ast.walk(f) if isinstance(x, ast.Attribute) and isinstance(x.value, ast.Name) and
+                        x.value.id == name and x.attr in QTY_ATTRS]
+                if not uses:
+                    continue
+                n += 1
+                # unconditional re-definitions at the function's top level, after the initialisation
+                top = [st for st in f.body if st is not init and isinstance(st, (ast.Assign, ast.AugAssign)) and any(
+                    isinstance(t, ast.Name) and t.id == name for t in (st.targets if isinstance(st, ast.Assign) else [st.target]))]
+                guarded = [u for u in uses if _guarded_by_type(u, name)]
+                ok = bool(top) or len(guarded) == len(uses)
+                ctx.check(ok, R, uses[0], f._qual, "`%s = %s` then `%s`" % (name, pyfe.src(init.value), pyfe.src(uses[0])[:40]),
+                          "a quantity on every path", "`%s` starts as the bare number %s and is only updated inside loops / branches; "
+                          "when those do not run (no reaction, no neighbour) `%s` is applied to a number and raises AttributeError"
+                          % (name, pyfe.src(init.value), pyfe.src(uses[0])[:40]))
+    return n
+
+
+def _guarded_by_type(use, name):
+    p_ = pyfe.parent(use)
+    while p_ is not None and not isinstance(p_, ast.FunctionDef):
+        if isinstance(p_, ast.If):
+            t = pyfe.src(p_.test)
+            if name in t and ("type(" in t or "isinstance(" in t or "isnumber(" in t or "isunit" in t):
+                return True
+        p_ = pyfe.parent(p_)
+    return False
+
+
+def copies(ctx, R, py, modules):
+    """COPY -- `x.copy()` returns an object equal to x in every field: the package's copy methods deep-copy `self`; a copy built
+    through the constructor must pass every constructor parameter from the matching attribute of self (a forgotten one
+    silently reverts to its default: RDScript / RDTrajectory / simulate() all work on copies)"""
+    n = 0
+    for mn in modules:
+        m = py.mods.get(mn)
+        ctx.need(m is not None, R, "module %s not found" % mn)
+        for f in m.funcs.values():
+            if f.name != "copy" or getattr(f, "_cls", None) is None:
+                continue
+            rets = [r for r in ast.walk(f) if isinstance(r, ast.Return) and r.value is not None]
+            n += 1
+            if len(rets) != 1:
+                ctx.violation(R, f, f._qual, "copy()", "copy() does not end in a single `return <copy of self>`")
+                continue
+            from . import pysym
+            v = pysym.inline(rets[0].value, f)
+            t = pyfe.src(v).replace(" ", "")
+            if t in ("cpy.deepcopy(self)", "copy.deepcopy(self)", "deepcopy(self)"):
+                ctx.ok(R, rets[0], f._qual, "return %s" % t, "deep copy of every attribute")
+                continue
+            cname = f._cls.name
+            if isinstance(v, ast.Call) and pyfe.call_name(v).split(".")[-1] in (cname, "type(self)", "__class__"):
+                init = py.lookup_method(f._cls, "__init__")
+                ps = [p for p in pyfe.params(init) if p != "self"] if init is not None else []
+                kw = {k.arg: k.value for k in v.keywords}
+                for i, a in enumerate(v.args):
+                    if i < len(ps):
+                        kw[ps[i]] = a
+                missing = [p for p in ps if p not in kw]
+                wrong = [p for p in ps if p in kw and not any(pyfe.src(kw[p]).replace(" ", "").startswith(x) for x in (
+                    "self.%s" % p, "self._%s" % p, "cpy.deepcopy(self.%s" % p, "copy.deepcopy(self.%s" % p, "cpy.deepcopy(self._%s" % p))]
+                ctx.check(not missing and not wrong, R, rets[0], f._qual, "return %s(...)" % cname, "every constructor parameter from "
+                          "the matching attribute of self", "the copy is built without %s%s: that field of the copy is the "
+                          "constructor's default (or another attribute), not the original's" % (
+                              ", ".join("`%s`" % p for p in missing), (" and with a mismatched " + ", ".join(wrong)) if wrong else ""))
+            else:
+                ctx.violation(R, rets[0], f._qual, "return %s" % pyfe.src(v)[:60], "copy() neither deep-copies self nor rebuilds it "
+                              "through its own constructor")
+    return n
+
+
 def run(ctx, pid, py, modules, truth_floor=1):
     from . import truth
     truth.rule(ctx, pid + ".TRUTH", py, modules, floor=truth_floor)
     nl = lossy(ctx, pid + ".LOSSY", py, modules)
     npu = pure(ctx, pid + ".PURE", py, modules)
+    acc(ctx, pid + ".ACC", py, modules)
+    copies(ctx, pid + ".COPY", py, modules)
+    nn = names(ctx, pid + ".NAMES", py, modules)
+    ctx.floor(pid + ".NAMES", max(1, nn // 2))
     ctx.floor(pid + ".LOSSY", max(1, nl // 2))
     ctx.floor(pid + ".PURE", max(1, npu // 2))
